@@ -150,6 +150,9 @@ fn main() {
             let mut ctx = Ctx::new(id, Tier::Quick, def.level);
             ctx.replay_mode = true;
             let sub = doc.get("check").and_then(|v| v.as_str()).unwrap_or("").to_string();
+            if sub.ends_with("-trace-logging") {
+                set_trace_logging(true);
+            }
             let case = doc.get("case").cloned().unwrap_or(Value::Null);
             let r = match catch(|| (def.replay)(&ctx, &sub, &case)) {
                 Ok(r) => r,
